@@ -420,12 +420,38 @@ def zoo():
     add('List/credit', LIST, lambda d: ListGrader(answers=['a', 'b'], subgraders=StringGrader(),
                                                   attempt_based_credit=LinearCredit(), debug=d), True)
     add('Echo', BOTH, lambda d: EchoGrader(debug=d))
+    # the comparer family, LinearComparer in its rare configurations too
+    from mitxgraders import (between_comparer, congruence_comparer, eigenvector_comparer, vector_span_comparer, vector_phase_comparer,
+                             LinearComparer, MatrixEntryComparer, EqualityComparer)
+    import numpy as np
+
+    def cmp_formula(comparer, params, **kw):
+        return lambda d: FormulaGrader(answers={'comparer': comparer, 'comparer_params': params}, debug=d, **kw)
+
+    def cmp_matrix(comparer, params, **kw):
+        return lambda d: MatrixGrader(answers={'comparer': comparer, 'comparer_params': params}, debug=d, **kw)
+    add('Cmp/between', ITEM, cmp_formula(between_comparer, ['1', '5']))
+    add('Cmp/congruence', ITEM, cmp_formula(congruence_comparer, ['pi/2', '2*pi']))
+    add('Cmp/eigenvector', ITEM, cmp_matrix(eigenvector_comparer, ['[[1,0],[0,2]]', '1'], max_array_dim=2))
+    add('Cmp/span', ITEM, cmp_matrix(vector_span_comparer, ['[1,0,0]', '[0,1,0]']))
+    add('Cmp/phase', ITEM, cmp_matrix(vector_phase_comparer, ['[1,i]']))
+    add('Cmp/linear', ITEM, cmp_formula(LinearComparer(), ['x^2'], variables=['x']))
+    add('Cmp/linear-all', ITEM, cmp_formula(LinearComparer(equals=1, proportional=0.5, offset=0.4, linear=0.2), ['x^2'], variables=['x']))
+    add('Cmp/linear-prop-only', ITEM, cmp_formula(LinearComparer(equals=None, proportional=0.5), ['x^2'], variables=['x']))
+    add('Cmp/linear-linear-only', ITEM, cmp_formula(LinearComparer(equals=None, proportional=None, linear=0.5), ['x'], variables=['x'], samples=3))
+    add('Cmp/linear-zero', ITEM, cmp_formula(LinearComparer(equals=None, proportional=0.5, linear=0.3), ['0'], variables=['x']))
+    add('Cmp/linear-matrix', ITEM, cmp_matrix(LinearComparer(offset=0.5), ['[x,1]'], variables=['x']))
+    add('Cmp/entry', ITEM, cmp_matrix(MatrixEntryComparer(entry_partial_credit=0.5), ['[[1,2],[3,4]]'], max_array_dim=2))
+    add('Cmp/transform', ITEM, cmp_formula(EqualityComparer(transform=np.abs), ['x'], variables=['x']))
+    add('Cmp/list', LIST, lambda d: ListGrader(
+        answers=[{'comparer': LinearComparer(equals=None, proportional=0.5), 'comparer_params': ['x']}, 'x+1'],
+        subgraders=FormulaGrader(variables=['x']), ordered=True, debug=d))
     _ZOO = Z
     return Z
 
 
 LIST_SIZES = {'Sum/limits': 4, 'List/str': 2, 'List/formula-ordered': 3, 'List/mixed': 3, 'List/grouped': 4,
-              'List/grouped-mixed': 5, 'List/multi-answer': 2, 'List/siblings': 2, 'List/credit': 2, 'Echo': 3}
+              'List/grouped-mixed': 5, 'List/multi-answer': 2, 'List/siblings': 2, 'List/credit': 2, 'Echo': 3, 'Cmp/list': 2}
 
 # ------------------------------------------------------------------------------------------------
 # hostile strings
@@ -446,6 +472,9 @@ FOREIGN = [u'\u0661', u'\u0662', u'\uff11', u'\uff12', u'\u00b2', u'\u00b9', u'\
            u'\uff08', u'\uff09', u'\u3010', u'\u066b', u'\u066c', u'\uff0c', u'\u037e', u'\u0085', u'\u1680']
 STRAY = list('()[]{},;:.\'"`!@#$%^&*_=<>?\\|~/+- \t\n\r') + ['<br/>', '{}', '{0}', '%s', '%(x)s', '<mark>', '&amp;', "', '", '\\n']
 
+# blank / zero / proportional / shifted inputs: the perturbers that reach the rare branches of comparers
+PERTURB = ['', ' ', '0', '0*x', '0.0', 'x', 'x^2', '2*x', '2*x^2', 'x^2+1', '3*x+1', '[0,0]', '[0,0,0]', '[1,0,0]', '[1,i]', '0*[1,i]',
+           '[[0,0],[0,0]]', '[[1,2],[3,4]]', '1/0', 'x/0', '3', 'pi/2']
 CORPUS = ['', ' ', '\t', '\n', '1/0', '0/0', '0^-1', '1||-1', '(1', '1)', '((((', '[(1])', '{', '1+', '*1', '1 2', '--1', 'x', 'q',
           'sin(1,2)', 'sin()', 'sin', 'f(1)', '[1,2]+[1,2,3]', '[1,2]^2', '1/[1,2]', '2^[1,2]', '[[1,2],[3]]', '[[1,2],[3,4]]^0.5',
           '[[1,1],[1,1]]^-1', 'sin([1,2])', 'det([[1,2]])', 'cross([1,2],[3,4])', '10^400', '10^10^10', '1e400', 'e^1000', '1e308*10',
@@ -680,12 +709,20 @@ def observe_once(g, inp, attempt, seed, seconds):
             'seconds': time.time() - t0}
 
 
-def observe(g, inp, attempt=None, seed=0):
+PENDING = []        # witnesses found by the state check that runs after EVERY observed call (merged into the result by run)
+IN_STATE_CHECK = [False]
+
+
+def observe(g, inp, attempt=None, seed=0, tag=None):
     """call g(None, inp) with check wrapped on the instance; returns a record.  A call stopped by the 10 s alarm is repeated
-    once with a 40 s alarm (a loaded machine must not be mistaken for non-termination)."""
+    once with a 40 s alarm (a loaded machine must not be mistaken for non-termination).  tag = (zoo name, input spec, schedule):
+    after the call the process-wide numpy error handling is checked, so that a call that leaves it changed is named."""
     rec = observe_once(g, inp, attempt, seed, 10)
     if rec['status'] == 'timeout':
         rec = observe_once(g, inp, attempt, seed, 40)
+    if not IN_STATE_CHECK[0]:
+        name, spec, schedule = tag if tag else (type(g).__name__, None, None)
+        state_after_call(name, spec, attempt, schedule)
     return rec
 
 
@@ -876,7 +913,7 @@ def check_anticipated(row):
     mode, factory, credit = zoo_entry(name)
     g = factory(False)
     inp = build_object(spec)
-    rec = observe(g, inp, attempt=1 if credit else None, seed=12345)
+    rec = observe(g, inp, attempt=1 if credit else None, seed=12345, tag=(name, spec, None))
     st, val = rec['status'], rec['val']
     if st != 'exc':
         return 'expected %s, the call %s' % (cls, 'returned %r' % (val,) if st == 'ret' else 'timed out')
@@ -988,7 +1025,8 @@ def run_calls(ctx, res, rng):
     labels = [l for l, _ in nontext_objects()]
     # 1. corpus x every grader, non-text objects x every grader, deep strings x a few graders
     for gi, (name, (mode, g, gd, credit)) in enumerate(sorted(graders.items())):
-        for s in (CORPUS[:45] if quick else CORPUS):
+        for s in (CORPUS[:45] if quick else CORPUS) + (PERTURB if (not quick or name.startswith(('Cmp', 'Matrix', 'Formula', 'Numerical')))
+                                                       else PERTURB[:4]):
             work.append((name, s if mode != LIST else ['list', [s] * LIST_SIZES.get(name, 2)], 1 if credit else None))
         mine = labels if (not quick or name in ('String', 'List/str', 'Echo')) else [labels[(gi * 5 + k) % len(labels)] for k in range(6)]
         for label in mine:
@@ -1023,7 +1061,7 @@ def run_calls(ctx, res, rng):
         for i, (name, spec, attempt) in enumerate(work):
             mode, g, gd, credit = graders[name]
             inp = build_object(spec)
-            rec = observe(g, inp, attempt=attempt, seed=ctx['seed'] * 7919 + i)
+            rec = observe(g, inp, attempt=attempt, seed=ctx['seed'] * 7919 + i, tag=(name, spec, None))
             res.oracle_evals += 1
             slow = max(slow, rec['seconds'])
             what = judge(mode, credit, attempt, inp, rec)
@@ -1050,7 +1088,7 @@ def run_calls(ctx, res, rng):
                     chosen[sig] = chosen.get(sig, 0) + 1
                     picked.append((mode, False, credit, attempt, inp, spec, rec, name))
                     if chosen[sig] == 1 and k != 'refused':      # the debug branch of the handler (raw re-raise), correspondence only
-                        recd = observe(gd, build_object(spec), attempt=attempt, seed=ctx['seed'] * 7919 + i)
+                        recd = observe(gd, build_object(spec), attempt=attempt, seed=ctx['seed'] * 7919 + i, tag=(name + ' (debug)', spec, None))
                         picked.append((mode, True, credit, attempt, inp, spec, recd, name))
     res.distribution['calls'] = len(work)
     res.distribution['call_outcomes'] = kinds
@@ -1365,7 +1403,7 @@ def run_trees(ctx, res, rng):
         if text in seen or len(text) > 300:
             continue
         seen.add(text)
-        rec = observe(g, text, seed=i)
+        rec = observe(g, text, seed=i, tag=('FormulaGrader(scripted functions)', text, None))
         res.oracle_evals += 1
         what = judge(ITEM, False, None, text, rec)
         if what:
@@ -1408,6 +1446,56 @@ def numpy_state_problem():
     return None
 
 
+def numpy_state_quick():
+    import numpy as np
+    from mitxgraders.helpers.calc import expressions as ex
+    err = np.geterr()
+    if err.get('divide') != 'call' or err.get('over') != 'call' or err.get('invalid') != 'call' or err.get('under') != 'ignore':
+        return 'numpy error handling is %r' % (err,)
+    if np.geterrcall() is not ex.handle_np_floating_errors:
+        return 'numpy error callback is %r' % (np.geterrcall(),)
+    return None
+
+
+def numpy_state_restore():
+    import numpy as np
+    from mitxgraders.helpers.calc import expressions as ex
+    np.seterr(divide='call', over='call', invalid='call', under='ignore')
+    np.seterrcall(ex.handle_np_floating_errors)
+
+
+def numeric_probe_rows():
+    """rows of the anticipated-problem table whose class/message depends on the process-wide numpy error handling"""
+    return [i for i, r in enumerate(ANTICIPATED)
+            if r[2] in ('CalcZeroDivisionError', 'CalcOverflowError', 'FunctionEvalError') and isinstance(r[1], str)]
+
+
+def state_after_call(name, spec, attempt, schedule=None):
+    """runs after every observed implementation call: the process-wide numpy error handling must be what the library installed.
+    If a call left it changed, unrelated graders are probed at once (so that the witness names the call), then it is restored."""
+    bad = numpy_state_quick()
+    if not bad:
+        return
+    failed = None
+    IN_STATE_CHECK[0] = True
+    try:
+        for i in numeric_probe_rows():
+            what = check_anticipated(ANTICIPATED[i])
+            if what:
+                failed = (i, what)
+                break
+    finally:
+        IN_STATE_CHECK[0] = False
+        numpy_state_restore()
+    text = 'this call left the process-wide state changed: %s' % bad
+    if failed:
+        row = ANTICIPATED[failed[0]]
+        text += '; afterwards, on an unrelated grader (%s on %r): %s' % (row[0], row[1], failed[1])
+    PENDING.append({'key': 'history:%s:%r:%r:%r' % (name, spec if len(repr(spec)) < 300 else hash(repr(spec)), attempt, schedule),
+                    'kind': 'history', 'grader': name, 'input': spec, 'attempt': attempt, 'schedule': schedule,
+                    'probe_row': failed[0] if failed else None, 'what': text})
+
+
 def run_numpy(ctx, res, rng):
     from mitxgraders.helpers.calc import expressions as ex
     what = numpy_state_problem()
@@ -1432,6 +1520,119 @@ def run_numpy(ctx, res, rng):
         terms.append('(%s, %s, %s)' % (ctext(m), cnames(mro_names(val)), ctext(str(val))))
         metas.append({'message': m})
     coq_eval(res, 'c02_np', 'np_case', terms, metas, 'cstr * list string * cstr', 'numpy-handler', 1)
+
+
+# ------------------------------------------------------------------------------------------------
+# attempt-based credit is applied AFTER the guarded region: every schedule x every attempt number x every grader class
+# ------------------------------------------------------------------------------------------------
+def schedules():
+    from mitxgraders import LinearCredit, GeometricCredit, ReciprocalCredit
+    return [('linear', LinearCredit), ('geometric', GeometricCredit), ('reciprocal', ReciprocalCredit),
+            ('linear/2-3-0.5', lambda: LinearCredit(decrease_credit_after=2, decrease_credit_steps=3, minimum_credit=0.5)),
+            ('linear/1-1-0', lambda: LinearCredit(decrease_credit_after=1, decrease_credit_steps=1, minimum_credit=0)),
+            ('geometric/0', lambda: GeometricCredit(factor=0)), ('geometric/1', lambda: GeometricCredit(factor=1)),
+            ('geometric/0.5', lambda: GeometricCredit(factor=0.5)),
+            ('author/one', lambda: (lambda n: 1)), ('author/half', lambda: (lambda n: 0.5)), ('author/zero', lambda: (lambda n: 0)),
+            ('author/step', lambda: (lambda n: 1 if n < 3 else 0.25))]
+
+
+ATTEMPTS = [None, 0, -1, 1, 2, 3, 10 ** 6, 10 ** 18, -10 ** 18]       # integers or absent: anything else is author-side
+
+
+def with_schedule(name, label, debug=False):
+    mode, factory, credit = zoo_entry(name)
+    g = factory(debug)
+    g.config['attempt_based_credit'] = dict(schedules())[label]()
+    g.config['attempt_based_credit_msg'] = True
+    return mode, g
+
+
+def run_attempts(ctx, res, rng):
+    quick = ctx['tier'] == 'quick'
+    sched = schedules()
+    builtin = [l for l, _ in sched[:3]]
+    others = [l for l, _ in sched[3:]]
+    inputs = {ITEM: ['cat', '1', '1/0', '[1,2]', ''], LIST: None, BOTH: ['a', 'boom']}
+    picked = []
+    chosen = {}
+    outcomes = {}
+    n_calls = 0
+    for gi, (name, mode, factory, credit) in enumerate(zoo()):
+        labels = builtin + ([others[(gi + k) % len(others)] for k in range(1 if quick else 3)] if quick else others)
+        for li, label in enumerate(labels):
+            st, built = core.guarded(with_schedule, name, label)
+            if st != 'ret':
+                res.witnesses.append({'key': 'construct:%s:%s' % (name, label), 'kind': 'construct', 'grader': name,
+                                      'what': 'grader with schedule %s could not be built: %r' % (label, built)})
+                continue
+            _, g = built
+            for ai, att in enumerate(ATTEMPTS):
+                if mode == LIST or (mode == BOTH and (ai + li) % 2):
+                    k = LIST_SIZES.get(name, 2)
+                    spec = ['list', [rng.choice(['a', '1', 'x', 'cat', '1/0', '2']) for _ in range(k)]]
+                else:
+                    spec = inputs[ITEM][(gi + li + ai) % len(inputs[ITEM])]
+                inp = build_object(spec)
+                rec = observe(g, inp, attempt=att, seed=ctx['seed'] + n_calls, tag=(name, spec, label))
+                n_calls += 1
+                res.oracle_evals += 1
+                what = judge(mode, True, att, inp, rec)
+                if what:
+                    res.witnesses.append({'key': 'attempt:%s:%s:%r:%r' % (name, label, att, spec), 'kind': 'attempt', 'grader': name,
+                                          'schedule': label, 'attempt': att, 'input': spec, 'what': what})
+                k = type(rec['val']).__name__ if rec['status'] == 'exc' else rec['status']
+                outcomes[k] = outcomes.get(k, 0) + 1
+                res.nontrivial.add(('attempt', name, label, att))
+                sig = (mode, rec['raw_status'], k, att is None, (att or 1) < 1)
+                if chosen.get(sig, 0) < (2 if quick else 8) and rec['status'] != 'timeout' and len(repr(spec)) < 300:
+                    chosen[sig] = chosen.get(sig, 0) + 1
+                    picked.append((mode, False, True, att, inp, spec, rec, name))
+    res.distribution['attempt_stream_calls'] = n_calls
+    res.distribution['attempt_stream_outcomes'] = outcomes
+    res.distribution['attempt_numbers'] = [repr(a) for a in ATTEMPTS]
+    res.distribution['schedules'] = [l for l, _ in sched]
+    pool_reset()
+    terms, metas = [], []
+    for args in picked:
+        add_call_case(terms, metas, *args)
+    coq_eval(res, 'c02_attempt', 'call_case', terms, metas, 'nat * bool * bool * option Z * pyval * raw * fin', 'attempt', 2)
+
+
+# ------------------------------------------------------------------------------------------------
+# perturb-then-probe: a fixed set of probe calls is evaluated before anything else and again after all the other streams
+# (the perturbers: every grader class and comparer, rare options, blank / zero / failing inputs, attempts, nestings);
+# the class and message of a failure must not depend on what the process graded before
+# ------------------------------------------------------------------------------------------------
+PROBE_GRADERS = ['Formula', 'Formula/user', 'Numerical', 'Matrix', 'Matrix/vars', 'Interval', 'Sum', 'SingleList/formula', 'List/mixed',
+                 'Cmp/linear', 'Cmp/congruence', 'String/pattern']
+PROBE_TEXTS = ['1/0', 'ln(0)', 'cot(0)', 'csc(0)', 'exp(1000)', 'arccosh(0)', 'arcsin(2)', 'fact(-1)', 'fact(0.5)', '10^400', '1e400', 'tan(pi/2)',
+               'sec(pi/2)', 'arctan2(0,0)', '0^-1', '1||-1', 'sqrt(-1)', '(1', '1+', 'q', '[1,2]+[1,2,3]', '[[1,1],[1,1]]^-1', 'sin([1,2])',
+               '[ln(0),1]', 'ln(0),1', 'sinh(1000)', 'cosh(-1000)', '1/sin(0)', 'log10(0)', 'arctanh(1)', 'arccoth(1)', 'x', '0', '']
+
+
+def probe_outcomes(ctx):
+    out = {}
+    for name in PROBE_GRADERS:
+        mode, factory, credit = zoo_entry(name)
+        for i, t in enumerate(PROBE_TEXTS):
+            g = factory(False)
+            spec = t if mode != LIST else ['list', [t] * LIST_SIZES.get(name, 2)]
+            rec = observe(g, build_object(spec), seed=4242 + i, tag=(name, spec, None))
+            if rec['status'] == 'exc':
+                out[(name, t)] = ('exc', type(rec['val']).__name__, str(rec['val']))
+            else:
+                out[(name, t)] = (rec['status'], None, None)
+    return out
+
+
+def compare_probes(res, before, after, stage):
+    for key in sorted(before):
+        res.oracle_evals += 1
+        if before[key] != after[key]:
+            name, t = key
+            res.witnesses.append({'key': 'probe:%s:%r' % key, 'kind': 'probe', 'grader': name, 'input': t, 'stage': stage,
+                                  'what': 'the outcome depends on what the process graded before: first %r, after %s %r'
+                                          % (before[key], stage, after[key])})
 
 
 # ------------------------------------------------------------------------------------------------
@@ -1649,6 +1850,30 @@ def run_int_towers(ctx, res, rng):
 
 # ------------------------------------------------------------------------------------------------
 def run(ctx):
+    """LAPACK writes diagnostics for degenerate fits straight to file descriptor 1: keep them out of the check's output"""
+    import os
+    sys.stdout.flush()
+    saved = os.dup(1)
+    devnull = os.open(os.devnull, os.O_WRONLY)
+    os.dup2(devnull, 1)
+    del PENDING[:]
+    try:
+        res = _run(ctx)
+        seen = set()
+        for w in PENDING:
+            if w['key'] not in seen:
+                seen.add(w['key'])
+                res.witnesses.insert(0, w)
+        res.distribution['calls_leaving_process_state_changed'] = len(seen)
+        return res
+    finally:
+        sys.stdout.flush()
+        os.dup2(saved, 1)
+        os.close(saved)
+        os.close(devnull)
+
+
+def _run(ctx):
     import glob
     import os
     for f in glob.glob(os.path.join(core.CASES, 'c02_*.v')):       # stale shards of an earlier, larger run
@@ -1662,6 +1887,7 @@ def run(ctx):
                 '(distinct by grader and input); ensure_text_inputs: every list of length <= L over 6 item kinds x 4 flag combinations; '
                 'brackets: every string over ()[]{}a up to the stated length, non-trivial = unbalanced; scripted trees distinct by text, '
                 'non-trivial = the call raised')
+    probes_first = probe_outcomes(ctx)
     # anticipated problems first (fixed corpus, found on every run)
     rows = anticipated_rows(ctx['tier'])
     for ri, row in enumerate(rows):
@@ -1694,6 +1920,20 @@ def run(ctx):
     t0 = time.time()
     run_int_towers(ctx, res, rng)
     phases['integer-towers'] = round(time.time() - t0, 1)
+    t0 = time.time()
+    run_attempts(ctx, res, rng)
+    # history: everything above were the perturbers; now the probes and the anticipated-problem table again
+    compare_probes(res, probes_first, probe_outcomes(ctx), 'all streams')
+    for ri, row in enumerate(ANTICIPATED):
+        what = check_anticipated(row)
+        res.oracle_evals += 1
+        if what and not any(w.get('kind') == 'anticipated' and w.get('row') == ri for w in res.witnesses):
+            res.witnesses.append({'key': 'anticipated-after-history:%s:%r' % (row[0], row[1] if len(repr(row[1])) < 200 else hash(repr(row[1]))),
+                                  'kind': 'anticipated-after-history', 'row': ri, 'grader': row[0],
+                                  'input': row[1] if len(repr(row[1])) < 300 else '(long)',
+                                  'what': 'after the other streams ran in this process: ' + what})
+    phases['attempts+history'] = round(time.time() - t0, 1)
+    res.distribution['probe_calls'] = len(probes_first)
     res.distribution['phase_seconds'] = phases
     what = numpy_state_problem()
     if what:
@@ -1721,6 +1961,35 @@ def replay(w):
         rec = observe(g, inp, attempt=attempt, seed=1)
         what = judge(mode, credit, attempt, inp, rec)
         return bool(what), '%s on %r: %s' % (w.get('grader', 'FormulaGrader(scripted)'), w.get('input', w.get('text')), what or 'conforms')
+    if kind in ('history', 'attempt'):
+        name = w['grader']
+        debug = name.endswith(' (debug)')
+        name = name[:-len(' (debug)')] if debug else name
+        if name == 'FormulaGrader(scripted functions)':
+            from mitxgraders import FormulaGrader
+            funcs = scripted_functions()
+            mode, credit = ITEM, False
+            g = FormulaGrader(answers='0', user_functions={k: v[0] for k, v in funcs.items()}, samples=1)
+        elif w.get('schedule'):
+            mode, g = with_schedule(name, w['schedule'], debug)
+            credit = True
+        else:
+            mode, factory, credit = zoo_entry(name)
+            g = factory(debug)
+        inp = build_object(w['input'])
+        del PENDING[:]
+        rec = observe(g, inp, attempt=w.get('attempt'), seed=1, tag=(w['grader'], w['input'], w.get('schedule')))
+        what = None if debug else judge(mode, credit, w.get('attempt'), inp, rec)
+        hist = [x['what'] for x in PENDING]
+        del PENDING[:]
+        return bool(what) or bool(hist), '%s%s on %r (attempt %r): %s%s' % (
+            w['grader'], ' + ' + w['schedule'] if w.get('schedule') else '', w['input'], w.get('attempt'),
+            what or 'the call itself conforms', '; ' + hist[0] if hist else '')
+    if kind in ('probe', 'anticipated-after-history'):
+        ctx = {'tier': 'quick', 'seed': 0, 'escalate': False, 'model_built': False}
+        res = run(ctx)
+        hit = [x for x in res.witnesses if x.get('kind') == kind and x.get('grader') == w.get('grader') and x.get('input') == w.get('input')]
+        return bool(hit), 'history-dependent outcome for %s on %r: %s' % (w.get('grader'), w.get('input'), hit[0]['what'] if hit else 'not reproduced')
     if kind == 'int-tower':
         child = TowerChild()
         child, ans, hung = tower_call(child, {'grader': w['grader'], 'input': w['input'], 'seed': 0})
